@@ -835,3 +835,69 @@ def rf104(run):
                           'without the two counts being equal: a LADDR or the extra jump of an FP branch shifts the positions, and when a '
                           'successor is generated later the wrong jump of the block is patched to it' % F.src(x)[:60], line=x['l'])
     return n
+
+
+# ---------------------------------------------------------------------------------------------
+# RF110: opcodes that machinize rewrites away are not produced again behind it
+# ---------------------------------------------------------------------------------------------
+
+def rf110(run):
+    from lib import regions as R
+    rule = 'RF110'
+    run.rule(rule, 'x86-64: target_machinize rewrites every FP less / less-or-equal comparison and branch into the swapped greater form, '
+                   'because the `setb/setbe` and `jb/jbe` patterns of the less forms are true for unordered operands.  The only table that '
+                   'changes opcodes behind machinize, commutative_insn_code (used by the combiner after register allocation), therefore '
+                   'never returns an opcode that machinize rewrites away')
+    tu = run.tu('gen')
+    m = tu.func('target_machinize')
+    c = tu.func('commutative_insn_code')
+    run.functions_analysed.update({('gen', m.name), ('gen', c.name)})
+    codes = dict(tu.enum('MIR_insn_code_t'))
+    elim = {}
+    for sw in R.find_switches(m):
+        try:
+            regs = R.switch_regions(m, sw)
+        except F.AnalysisBroken:
+            continue
+        for r in regs:
+            names = [cn for cn, lo, hi in r['cases'] if cn in codes]
+            if not names or len(names) != 1:
+                continue
+            assigned = None
+            swaps = set()
+            for x in R.region_nodes(r['stmts']):
+                if x['k'] == 'BinaryOperator' and x['op'] == '=':
+                    l = F.src(F.strip(x['c'][0])).replace(' ', '')
+                    rr = F.strip(x['c'][1])
+                    if l == 'insn->code' and rr['k'] == 'DeclRefExpr' and rr['n'] in codes:
+                        assigned = rr['n']
+                    if l in ('insn->ops[1]', 'insn->ops[2]'):
+                        swaps.add(l)
+            if assigned and assigned != names[0] and len(swaps) == 2:
+                elim[names[0]] = assigned
+    if len(elim) < 6:
+        raise F.AnalysisBroken('target_machinize: only %d swapped FP comparisons found' % len(elim))
+    sws = R.find_switches(c)
+    if not sws:
+        raise F.AnalysisBroken('commutative_insn_code: no switch')
+    n = 0
+    for r in R.switch_regions(c, sws[0]):
+        rets = [x for x in R.region_nodes(r['stmts']) if x['k'] == 'ReturnStmt' and x.get('c') and x['c'][0] is not None]
+        for x in rets:
+            e = F.strip(x['c'][0])
+            outs = [e['n']] if e['k'] == 'DeclRefExpr' and e['n'] in codes else [cn for cn, lo, hi in r['cases']] if e['k'] == 'DeclRefExpr' else []
+            for o in outs:
+                n += 1
+                ok = o not in elim
+                if not ok or n % 16 == 1:
+                    run.ob(rule, (r['line'], o), ok, {'cases': [cn for cn, lo, hi in r['cases']][:4], 'returns': o})
+                else:
+                    run.ob(rule, (r['line'], o), ok)
+                if not ok:
+                    run.violation(rule, c, 'combiner produces %s' % o, 'commutative_insn_code maps %s to %s, an opcode target_machinize replaces by %s with swapped '
+                                  'operands because its x86 pattern is true for unordered operands: the combiner, which runs after machinize, '
+                                  'can swap the operands back to fold a memory operand, and the comparison yields 1 for a NaN at -O1 and above' %
+                                  ('/'.join(cn for cn, lo, hi in r['cases'])[:40], o, elim[o]), line=x['l'])
+    if n < 40:
+        raise F.AnalysisBroken('commutative_insn_code: only %d mapped opcodes' % n)
+    return n
